@@ -518,9 +518,9 @@ pub fn c17_case(spec: &Spec, _p: &Progress) -> Outcome {
 
 /// Reader that hands out at most `chunk` bytes per read call.
 pub struct Chunked<'a> {
-	data: &'a [u8],
-	pos: usize,
-	chunk: usize,
+	pub data: &'a [u8],
+	pub pos: usize,
+	pub chunk: usize,
 }
 
 impl Read for Chunked<'_> {
